@@ -861,6 +861,38 @@ func c05MHostCase(r *vfRand, in c05MIn, x, y string) c05MIn {
 	return in
 }
 
+// c05MGenBig (mux agent, seeded C05o): a configuration just beyond an 8-bit boundary - more
+// than 256 virtual-host rules, path- and rule-level block lists on the rules around and
+// beyond index 255 - and cold + warm requests of an allowed and a blocked client for them.
+func c05MGenBig(r *vfRand) c05MIn {
+	const x, y = "52.10.77.3", "9.9.9.9"
+	blockX := &c05MFilter{Def: false, Allow: []string{}, Block: []string{x}}
+	in := c05MIn{CacheSize: r.PickInt(8, 100), Backends: []string{"A", "B", "C", "D", "H"}}
+	n := r.PickInt(258, 270, 300)
+	for i := 0; i < n; i++ {
+		rule := c05MRule{Host: fmt.Sprintf("h%d.example.com", i), Paths: []c05MPath{{Path: "/a", Backend: r.PickStr("A", "B", "C")}}}
+		if i >= 250 || i%50 == 2 {
+			if i%3 == 0 {
+				rule.Filter = blockX
+			} else {
+				rule.Paths[0].Filter = blockX
+			}
+		}
+		in.Rules = append(in.Rules, rule)
+	}
+	for _, t := range []int{2, 255, 256, 257, n - 1} {
+		h := fmt.Sprintf("h%d.example.com", t)
+		ya := c05MReq{Host: h, Method: "GET", Path: "/a", Remote: y + ":5123"}
+		xa := c05MReq{Host: h, Method: "GET", Path: "/a", Remote: x + ":5123"}
+		if r.Bool() {
+			in.Reqs = append(in.Reqs, ya, xa, xa, ya)
+		} else {
+			in.Reqs = append(in.Reqs, xa, ya, xa)
+		}
+	}
+	return in
+}
+
 func TestVerifC05Mux(t *testing.T) {
 	out := vfOpen(t)
 	defer out.Close()
@@ -887,6 +919,9 @@ func TestVerifC05Mux(t *testing.T) {
 		in := c05MGen(r, adv)
 		if i%5 == 3 {
 			in = c05MGenHostMix(r)
+		}
+		if i%100 == 7 { // one or two big configurations per run
+			in = c05MGenBig(r)
 		}
 		obs := c05MRun(&in)
 		out.Emit(vfCase{ID: fmt.Sprintf("%s-mux-%d", src, i), Src: src, Grp: "mux", In: in, Obs: obs})
